@@ -1807,6 +1807,15 @@ pub fn check_fired(name: &str, pre: &Snap, post: &Snap) -> RefResult {
             if name == "GRAPH.PRINT*DIFF" && pre.g[0] == pre.g[1] && post == pre {
                 return Ok(()); // only reachable with NaN weights (frame guard): don't-care
             }
+            // +0.0 and -0.0 are the same number: two graphs that differ only in the sign of zero weights
+            // may or may not have a textual diff (don't-care, like NaN; the stored weights are checked elsewhere)
+            if name == "GRAPH.PRINT*DIFF" && post == pre {
+                let (a, b) = (&pre.g[0], &pre.g[1]);
+                let zero_only = a.nodes == b.nodes && a.edges.len() == b.edges.len() && a.edges.iter().zip(b.edges.iter()).all(|(x, y)| x.0 == y.0 && x.1 == y.1 && (x.2 == y.2 || (fl(x.2) == 0.0 && fl(y.2) == 0.0)));
+                if zero_only {
+                    return Ok(());
+                }
+            }
             if post.n.len() != pre.n.len() + 1 {
                 return bad(format!("{} pushed no text", name));
             }
